@@ -93,6 +93,12 @@ type Frame struct {
 	ghostPos map[*ssa.Range]string // state var names for string range iterators
 	stack    []*ssa.Function       // functions being inlined (recursion guard)
 	locals   map[*ssa.BasicBlock]map[string]CVal
+	nows     []nowRec // time.Now readings, for the monotone-clock assumption
+}
+
+type nowRec struct {
+	b *ssa.BasicBlock
+	t *Term
 }
 
 type loopInfo struct {
@@ -113,26 +119,27 @@ type Addr struct {
 }
 
 type FnGen struct {
-	g          *Gen
-	fn         *ssa.Function
-	ct         *Contract
-	name       string
-	assumes    []*Term
-	obls       []*Obligation
-	gens       []*genInfo
-	memo       map[string]*Term
-	stateSorts map[string]string
-	counters   map[string]int
-	fresh      int
-	allocs     []*Term
-	notes      map[string]bool
-	inputs     []InputVar
-	initState  *State
-	paramEnv   map[string]CVal
-	top        *Frame
-	monitors   []*Monitor
-	failed     []string
-	quantIdx   bool
+	g            *Gen
+	preCallState *State // state before the call whose "after" monitor rules are being evaluated
+	fn           *ssa.Function
+	ct           *Contract
+	name         string
+	assumes      []*Term
+	obls         []*Obligation
+	gens         []*genInfo
+	memo         map[string]*Term
+	stateSorts   map[string]string
+	counters     map[string]int
+	fresh        int
+	allocs       []*Term
+	notes        map[string]bool
+	inputs       []InputVar
+	initState    *State
+	paramEnv     map[string]CVal
+	top          *Frame
+	monitors     []*Monitor
+	failed       []string
+	quantIdx     bool
 	// free-variable bindings of a closure about to be inlined
 	pendingBindings []*Term
 	// noDefs: no definitional constants may be introduced (terms under a quantifier's bound variables)
